@@ -357,6 +357,32 @@ fn loop_object_clause(acc: &Acc) {
             ("items", Value::from_pairs(letters.iter().map(|k| (k.clone(), 1))), Some("seq|items"), letters.iter().map(|k| format!("('{}', 1)", k)).collect()),
             ("filtered_loop", Value::from((0..2 * n as i64).collect::<Vec<_>>()), Some("FILTER"), (0..2 * n as i64).filter(|i| i % 2 == 0).map(|i| i.to_string()).collect()),
         ];
+        let mut cases = cases;
+        // further routes to a sequence of the same items: every lazy wrapper must describe what is
+        // actually iterated
+        for (name, expr, f) in [
+            ("list_plus_empty", "seq + []", 0usize),
+            ("empty_plus_list", "[] + seq", 0),
+            ("list_double_reverse", "seq|reverse|reverse", 0),
+            ("list_slice_from", "seq[0:]", 0),
+            ("list_slice_step", "seq[::1]", 0),
+            ("list_select", "seq|select('defined')", 0),
+            ("list_map_identity", "seq|map('int')", 0),
+            ("list_unique", "seq|unique", 0),
+            ("list_sort", "seq|sort", 0),
+            ("list_reject_none", "seq|reject('none')", 0),
+            ("list_batch_flat", "seq|batch(1)|map('first')", 0),
+            ("list_tail", "([0] + seq)[1:]", 0),
+            ("list_head", "(seq + [0])[:-1]", 0),
+            ("list_rev_slice", "seq[::-1]", 1),
+        ] {
+            let items: Vec<String> = if f == 1 { strs.iter().rev().cloned().collect() } else { strs.clone() };
+            cases.push((name, Value::from(ints.clone()), Some(expr), items));
+        }
+        cases.push(("one_shot", Value::make_one_shot_iterator(ints.clone().into_iter()), Some("seq|list"), strs.clone()));
+        cases.push(("lazy_unsized_listed", Value::make_iterable({ let v = ints.clone(); move || v.clone().into_iter().filter(|_| true) }), Some("seq|list"), strs.clone()));
+        cases.push(("dictsort", Value::from_pairs(letters.iter().rev().map(|k| (k.clone(), 1))), Some("seq|dictsort"), letters.iter().map(|k| format!("('{}', 1)", k)).collect()));
+        cases.push(("map_values", Value::from_pairs(letters.iter().map(|k| (k.clone(), k.clone()))), Some("seq|items|map('last')"), letters.clone()));
         for (kind, seq, expr, items) in cases {
             acc.eval(1);
             let src = match expr {
@@ -379,6 +405,78 @@ fn loop_object_clause(acc: &Acc) {
     }
 }
 
+/// strings as iterated sequences: every character class (1- to 4-byte, mixed) x every length around
+/// the inline-storage boundary x every way a string value comes about (context value in inline /
+/// heap / safe storage, template literal, concatenation, filter result, slice); the loop fields must
+/// describe the characters iterated
+fn string_loop_clause(acc: &Acc) {
+    let env = Environment::new();
+    let tmpl = "{% for v in SEQ %}{{ loop.index }},{{ loop.index0 }},{{ loop.revindex }},{{ loop.revindex0 }},{{ loop.first }},{{ loop.last }},{{ loop.length }},{{ loop.previtem }},{{ loop.nextitem }},{{ loop.depth }},{{ loop.depth0 }},{{ v }};{% endfor %}{% for v in SEQ %}{% if loop.last %}L{{ loop.index }}{% endif %}{% else %}E{% endfor %}";
+    let expected = |items: &[String]| -> String {
+        let n = items.len();
+        let mut s = String::new();
+        for (i, v) in items.iter().enumerate() {
+            let b = |x: bool| if x { "True" } else { "False" };
+            s.push_str(&format!("{},{},{},{},{},{},{},{},{},1,0,{};", i + 1, i, n - i, n - i - 1, b(i == 0), b(i + 1 == n), n, if i > 0 { items[i - 1].clone() } else { String::new() }, if i + 1 < n { items[i + 1].clone() } else { String::new() }, v));
+        }
+        if n == 0 {
+            s.push('E');
+        } else {
+            s.push_str(&format!("L{}", n));
+        }
+        s
+    };
+    let classes: [(&str, &[char]); 6] = [
+        ("ascii", &['a', 'b', 'c', 'd']),
+        ("two_byte", &['ä', 'ö', 'ü', 'ß']),
+        ("three_byte", &['€', '√', '∑', '∞']),
+        ("four_byte", &['😀', '🎉', '🚀', '🌍']),
+        ("mixed", &['a', 'ä', '€', '😀']),
+        ("mixed_tail", &['x', 'y', 'z', 'é']),
+    ];
+    for (cname, chars) in classes {
+        for n in [0usize, 1, 2, 3, 4, 5, 6, 7, 8, 10, 11, 12, 15, 16, 21, 22, 23, 24, 25, 40] {
+            let text: String = (0..n).map(|i| chars[(i * 7 + i / 4) % chars.len()]).collect();
+            let items: Vec<String> = text.chars().map(|c| c.to_string()).collect();
+            let half = text.chars().take(n / 2).collect::<String>();
+            let rest = text.chars().skip(n / 2).collect::<String>();
+            let lit = format!("'{}'", text);
+            let routes: Vec<(&str, String, Value)> = vec![
+                ("ctx_plain", "seq".into(), Value::from(text.clone())),
+                ("ctx_safe", "seq".into(), Value::from_safe_string(text.clone())),
+                ("ctx_arc", "seq".into(), Value::from(std::sync::Arc::<str>::from(text.clone()))),
+                ("literal", lit.clone(), Value::from(())),
+                ("concat", "a ~ b".into(), Value::from(())),
+                ("concat_literal", format!("'{}' ~ '{}'", half, rest), Value::from(())),
+                ("string_filter", "seq|string".into(), Value::from(text.clone())),
+                ("slice_all", "seq[:]".into(), Value::from(text.clone())),
+                ("slice_tail", "('q' ~ seq)[1:]".into(), Value::from(text.clone())),
+                ("set_var", "SETVAR".into(), Value::from(text.clone())),
+                ("trim", "(' ' ~ seq ~ ' ')|trim".into(), Value::from(text.clone())),
+                ("join", "seq|list|join".into(), Value::from(text.clone())),
+                ("replace", "seq|replace('#', '')".into(), Value::from(text.clone())),
+                ("default", "missing|default(seq)".into(), Value::from(text.clone())),
+                ("reverse_twice", "seq|reverse|reverse".into(), Value::from(text.clone())),
+            ];
+            for (route, expr, seq) in routes {
+                acc.eval(1);
+                let src = if expr == "SETVAR" { format!("{{% set s2 = seq %}}{}", tmpl.replace("SEQ", "s2")) } else { tmpl.replace("SEQ", &expr) };
+                let got = catch(|| env.render_str(&src, context! { seq => seq, a => half.clone(), b => rest.clone() }).map_err(|e| e.to_string()));
+                let want = expected(&items);
+                match got {
+                    Ok(Ok(s)) if s == want => acc.outcome("string loop fields ok"),
+                    other => acc.fail(Failure {
+                        key: format!("loop_object fields_wrong kind=string route={} chars={}", route, cname),
+                        case: format!("{} string of {} chars ({} bytes) via {}", cname, n, text.len(), route),
+                        detail: format!("got {:?} expected {:?}", other.map(|r| r.map(|s| s.chars().take(200).collect::<String>())), want.chars().take(200).collect::<String>()),
+                        replay: json!({"kind": "loop_object", "sequence": "string", "len": n}),
+                    }),
+                }
+            }
+        }
+    }
+}
+
 pub fn main(args: Args) -> i32 {
     let start_t = std::time::Instant::now();
     install_quiet_panic_hook();
@@ -391,6 +489,7 @@ pub fn main(args: Args) -> i32 {
             repetition_clause(&acc);
         } else if j["kind"] == "loop_object" {
             loop_object_clause(&acc);
+            string_loop_clause(&acc);
         } else if j["depth"] == 0 {
             let idx = j["index"].as_u64().unwrap();
             let prog = if idx >= 1_000_000 { loop_filter_family().swap_remove((idx - 1_000_000) as usize) } else { closure_family().swap_remove(idx as usize) };
@@ -416,6 +515,7 @@ pub fn main(args: Args) -> i32 {
         };
     }
     loop_object_clause(&acc);
+    string_loop_clause(&acc);
     repetition_clause(&acc);
     {
         let fam = closure_family();
